@@ -63,6 +63,9 @@ structure Inst where
 
 /-- extension performed by a register-destination move, from its name and operand sizes -/
 def performed (name : String) (dstRt : Nat) (srcBytes : Nat) : Ext × Nat :=   -- (kind, from bytes)
+  -- AArch64 loads carry their access size in the mnemonic (the memory operand has none)
+  let srcBytes := if name == "ldrsb" || name == "ldrb" then 1 else if name == "ldrsh" || name == "ldrh" then 2
+                  else if name == "ldrsw" then 4 else if name == "ldr" then regBytes dstRt else srcBytes
   if name == "movsx" || name == "movsxd" || name == "ldrsb" || name == "ldrsh" || name == "ldrsw" then (.sign, srcBytes)
   else if name == "movzx" || name == "ldrb" || name == "ldrh" then (.zero, srcBytes)
   else if (name == "mov" || name == "ldr") && groupOf dstRt = 0 && regBytes dstRt ≤ 4 then (.zero, min srcBytes 4)
